@@ -81,22 +81,21 @@ func typedBack(x any, text string) (bool, string) {
 }
 
 type sizes struct {
-	primLen                         int // strings of <= primLen symbols as primitive values
-	arr1Len, arr2Len, arr3Len       int // item length bound for arrays of exactly 1, 2, 3 items
-	obj1Name, obj1Val               int // one member: name / value length bound
-	obj2Name, obj2Val               int // two members
-	mapReduced                      bool
-	intArrMax                       int
-	describe                        string
+	primLen                   int // strings of <= primLen symbols as primitive values
+	arr1Len, arr2Len, arr3Len int // item length bound for arrays of exactly 1, 2, 3 items
+	obj1Name, obj1Val         int // one member: name / value length bound
+	obj2Name, obj2Val         int // two members
+	intArrMax                 int
+	describe                  string
 }
 
 func tierSizes(thorough bool) sizes {
 	if thorough {
 		return sizes{primLen: 3, arr1Len: 3, arr2Len: 3, arr3Len: 1, obj1Name: 2, obj1Val: 3, obj2Name: 1, obj2Val: 2, intArrMax: 3,
-			describe: "thorough: primitive strings |s|<=3; arrays: 0 items, 1 item |s|<=3, 2 items |s|<=3 each, 3 items |s|<=1 each (cap); objects/maps: 0 members, 1 member name<=2 value<=3, 2 members with distinct names |s|<=1 and values |s|<=2 (cap); integer arrays of <=3 items over 8 integers"}
+			describe: "thorough: primitive strings |s|<=3; arrays: 0 items, 1 item |s|<=3, 2 items |s|<=3 each, 3 items |s|<=1 each (cap); objects/maps: (maps: 0 members,) 1 member name<=2 value<=3, 2 members with distinct names |s|<=1 and values |s|<=2 (cap); structs with two optional properties: both/one/none set; struct without properties; integer arrays of <=3 items over 8 integers"}
 	}
 	return sizes{primLen: 2, arr1Len: 2, arr2Len: 2, arr3Len: 1, obj1Name: 2, obj1Val: 2, obj2Name: 1, obj2Val: 1, intArrMax: 3,
-		describe: "quick: primitive strings |s|<=2; arrays: 0 items, 1 item |s|<=2, 2 items |s|<=2 each, 3 items |s|<=1 each (cap); objects/maps: 0 members, 1 member name<=2 value<=2, 2 members with distinct names |s|<=1 and values |s|<=1 (cap); integer arrays of <=3 items over 8 integers"}
+		describe: "quick: primitive strings |s|<=2; arrays: 0 items, 1 item |s|<=2, 2 items |s|<=2 each, 3 items |s|<=1 each (cap); objects/maps: (maps: 0 members,) 1 member name<=2 value<=2, 2 members with distinct names |s|<=1 and values |s|<=1 (cap); structs with two optional properties: both/one/none set; struct without properties; integer arrays of <=3 items over 8 integers"}
 }
 
 // domain lists the bounded-exhaustive blocks of one combination.
@@ -160,15 +159,51 @@ func domain(c Combo, z sizes) []block {
 				}
 			}
 		}
-		return []block{
-			{"obj0", 1, func(int) (Value, []any) { return Value{Kind: "object"}, nil }},
-			{"obj1", len(n1) * len(v1), func(i int) (Value, []any) {
+		var out []block
+		if c.Shape == "map" {
+			// a struct with required properties always has members; a map can be empty
+			out = append(out, block{"obj0", 1, func(int) (Value, []any) { return Value{Kind: "object"}, nil }})
+		}
+		return append(out,
+			block{"obj1", len(n1) * len(v1), func(i int) (Value, []any) {
 				return object(KV{n1[i%len(n1)], v1[i/len(n1)]}), nil
 			}},
-			{"obj2", len(pairs) * len(v2) * len(v2), func(i int) (Value, []any) {
+			block{"obj2", len(pairs) * len(v2) * len(v2), func(i int) (Value, []any) {
 				p := pairs[i%len(pairs)]
 				i /= len(pairs)
 				return object(KV{p.a, v2[i%len(v2)]}, KV{p.b, v2[i/len(v2)]}), nil
+			}},
+		)
+	case "object-empty":
+		return []block{{"objempty", 1, func(int) (Value, []any) { return Value{Kind: "object"}, nil }}}
+	case "object-optional":
+		// struct with two optional properties named a,b (distinct, |name|<=1):
+		// both set (values over a small set), only the first set, none set
+		n2 := S(1)
+		type pair struct{ a, b string }
+		var pairs []pair
+		for _, a := range n2 {
+			for _, b := range n2 {
+				if a != b {
+					pairs = append(pairs, pair{a, b})
+				}
+			}
+		}
+		small := []string{"a", "", ",", "="}
+		v1 := S(1)
+		return []block{
+			{"objopt-both", len(pairs) * len(small) * len(small), func(i int) (Value, []any) {
+				p := pairs[i%len(pairs)]
+				i /= len(pairs)
+				return object(KV{p.a, small[i%len(small)]}, KV{p.b, small[i/len(small)]}), nil
+			}},
+			{"objopt-one", len(pairs) * len(v1), func(i int) (Value, []any) {
+				p := pairs[i%len(pairs)]
+				return Value{Kind: "object", Fields: []KV{{p.a, v1[i/len(pairs)]}}, Unset: []string{p.b}}, nil
+			}},
+			{"objopt-none", len(pairs), func(i int) (Value, []any) {
+				p := pairs[i]
+				return Value{Kind: "object", Unset: []string{p.a, p.b}}, nil
 			}},
 		}
 	}
@@ -239,8 +274,13 @@ func randValue(rng *ev.Rand, c Combo) (Value, []any) {
 			v.Items = append(v.Items, randText(rng))
 		}
 		return v, nil
+	case "object-empty":
+		return Value{Kind: "object"}, nil
 	default:
 		k := rng.Intn(4)
+		if c.Shape != "map" {
+			k = 1 + rng.Intn(3) // a struct type with declared properties; only a map can be empty
+		}
 		v := Value{Kind: "object"}
 		seen := map[string]bool{}
 		for j := 0; j < k; j++ {
@@ -249,6 +289,10 @@ func randValue(rng *ev.Rand, c Combo) (Value, []any) {
 				continue
 			}
 			seen[n] = true
+			if c.Shape == "object-optional" && rng.Bool() {
+				v.Unset = append(v.Unset, n)
+				continue
+			}
 			v.Fields = append(v.Fields, KV{n, randText(rng)})
 		}
 		return v, nil
@@ -277,6 +321,16 @@ func nameValues(c Combo) []Value {
 		}
 		return []Value{array("a"), array("a", "b"), array("a", "b", "c"), array("a=b", "c"), array("a,b"), array(), array(""), array("a", "")}
 	default:
-		return []Value{object(KV{"k", "v"}), object(KV{"k1", "v1"}, KV{"k2", "v2"}), object(KV{"k=", "v"}), object(KV{"k", "v,w"}), object(), object(KV{"k", ""}), object(KV{"a]", "b"}, KV{"[", "c"})}
+		if c.Shape == "object-empty" {
+			return []Value{object()}
+		}
+		vs := []Value{object(KV{"k", "v"}), object(KV{"k1", "v1"}, KV{"k2", "v2"}), object(KV{"k=", "v"}), object(KV{"k", "v,w"}), object(KV{"k", ""}), object(KV{"a]", "b"}, KV{"[", "c"})}
+		if c.Shape == "map" {
+			vs = append(vs, object())
+		}
+		if c.Shape == "object-optional" {
+			vs = append(vs, Value{Kind: "object", Unset: []string{"k1", "k2"}}, Value{Kind: "object", Fields: []KV{{"k1", "v1"}}, Unset: []string{"k2"}})
+		}
+		return vs
 	}
 }
